@@ -938,8 +938,12 @@ func (g *Gen) Value() cadence.Value {
 		}
 	case 1:
 		t = cadence.MetaType
-	case 2, 3:
+	case 2:
 		if v := g.manyComposites(); v != nil {
+			return v
+		}
+	case 3:
+		if v := g.hiddenComposite(2); v != nil {
 			return v
 		}
 	}
@@ -1007,4 +1011,72 @@ func (g *Gen) manyComposites() cadence.Value {
 		}
 	}
 	return cadence.NewArray(vals).WithType(cadence.NewVariableSizedArrayType(elem))
+}
+
+
+// hiddenComposite: a fresh composite type with 2-5 fields in random order, mixing abstract-typed fields
+// (values of any concrete type) with fields of optional / array / dictionary / capability-of a nominal type
+// of the universe whose VALUES are nil / empty, so that the nominal type is reachable only through the
+// declared field types; nested with the given depth.
+func (g *Gen) hiddenComposite(depth int) cadence.Value {
+	if len(g.structs) == 0 {
+		return nil
+	}
+	n := 2 + g.r.Intn(4)
+	fields := make([]cadence.Field, n)
+	vals := make([]cadence.Value, n)
+	used := map[string]bool{}
+	for i := 0; i < n; i++ {
+		name := g.ident()
+		for used[name] {
+			name += fmt.Sprint(g.r.Intn(10))
+		}
+		used[name] = true
+		var t cadence.Type
+		var v cadence.Value
+		nom := lib.Pick(g.r, g.structs)
+		switch g.r.Intn(8) {
+		case 0, 1:
+			t = lib.Pick(g.r, []cadence.Type{cadence.AnyStructType, cadence.AnyResourceType, cadence.HashableStructType, cadence.NumberType})
+			if t == cadence.AnyStructType && g.r.Bool() && len(g.interfaces) > 0 {
+				t = g.intersectionType()
+				v = g.ValueOf(cadence.IntType, 0)
+			} else {
+				v = g.ValueOf(t, 1)
+			}
+		case 2:
+			t, v = cadence.NewOptionalType(nom), cadence.NewOptional(nil)
+		case 3:
+			at := cadence.NewVariableSizedArrayType(nom)
+			t, v = at, cadence.NewArray(nil).WithType(at)
+		case 4:
+			dt := cadence.NewDictionaryType(cadence.StringType, nom)
+			t, v = dt, cadence.NewDictionary(nil).WithType(dt)
+		case 5:
+			t = cadence.NewOptionalType(cadence.NewCapabilityType(cadence.NewReferenceType(cadence.UnauthorizedAccess, nom)))
+			v = cadence.NewOptional(nil)
+		case 6:
+			if depth > 0 {
+				if in := g.hiddenComposite(depth - 1); in != nil {
+					t, v = in.Type(), in
+					break
+				}
+			}
+			fallthrough
+		default:
+			t = lib.Pick(g.r, numericTypes)
+			v = g.number(t)
+		}
+		fields[i], vals[i] = cadence.Field{Identifier: name, Type: t}, v
+	}
+	loc, qid := g.qualified(50 + depth)
+	switch g.r.Intn(4) {
+	case 0:
+		return cadence.NewResource(vals).WithType(cadence.NewResourceType(loc, qid, fields, nil))
+	case 1:
+		return cadence.NewEvent(vals).WithType(cadence.NewEventType(loc, qid, fields, nil))
+	case 2:
+		return cadence.NewContract(vals).WithType(cadence.NewContractType(loc, qid, fields, nil))
+	}
+	return cadence.NewStruct(vals).WithType(cadence.NewStructType(loc, qid, fields, nil))
 }
